@@ -45,6 +45,9 @@ def strat_case(draw, tier):
     x1, x2 = sorted([draw(_mag()), draw(_mag())])
     if x1 == x2:
         x2 = x1 * 2
+    # intervals that are thin next to where they lie (the cells of a very fine grid far from the origin)
+    if draw(st.integers(0, 11)) == 0:
+        x2 = float(f"{x1 * (1.0 + draw(st.sampled_from([1e-6, 1e-7]))):.12g}")
     # end points written as python integers (the library itself writes 1 and -1 for the cut-offs of its representations)
     int_ends = draw(st.integers(0, 9)) == 0
     if int_ends:
@@ -148,7 +151,9 @@ def _jsonable(x):
 
 def body(case):
     out = []
-    spec, n, a, b = case["model"], case["n"], float(case["a"]), float(case["b"])
+    # (end points keep the type they were written in: python integers stay integers)
+    spec, n = case["model"], case["n"]
+    a, b = (v if isinstance(v, int) and not isinstance(v, bool) else float(v) for v in (case["a"], case["b"]))
     model = build_model(spec)
     base_nu = model.levy_triplet.nu
     hints = quad_hints(spec)
